@@ -505,8 +505,26 @@ func c16(c *core.Ctx) {
 					// the call's own method string after the leading-slash normalisation
 					return derivesFromString(o, methodParamOfRoot(fn)) || o == ssa.Value(methodParamOfRoot(fn))
 				}) {
-					okFM = true
-					why = "FullMethod is this call's method string (leading slash normalised)"
+					// ... and it IS normalised: some definition reaching here prepends the slash (the caller may
+					// pass "svc/method"); with the bare parameter as the only origin the interceptor is told the raw string
+					slashed := false
+					for _, o := range originsThroughCallers(p, fm, 0) {
+						parts := concatParts(core.ResolveFree(o))
+						if s0, ok0 := core.ConstString(parts[0]); ok0 && strings.HasPrefix(s0, "/") && len(parts) > 1 {
+							slashed = true
+						}
+						if sc, _, isCall := core.CallResult(o); isCall && core.InfoOf(&sc.Call).Is("fmt.Sprintf") {
+							if f, okF := core.ConstString(sc.Call.Args[0]); okF && strings.HasPrefix(f, "/") {
+								slashed = true
+							}
+						}
+					}
+					if slashed {
+						okFM = true
+						why = "FullMethod is this call's method string (leading slash normalised)"
+					} else {
+						why = "FullMethod is the caller's method string as given: no definition reaching the literal prepends the leading slash, so a call made with \"svc/method\" shows interceptors a FullMethod that is not \"/svc/method\""
+					}
 				}
 				c.Check(okFM, key+":full-method", al.Pos(), why, why)
 			})
@@ -751,4 +769,44 @@ func concatParts(v ssa.Value) []ssa.Value {
 		}
 	}
 	return []ssa.Value{v}
+}
+
+// originsThroughCallers: core.XOrigins, and where an origin is a parameter of
+// a module function that has static callers in the library, the origins of the
+// argument at every such call site instead (depth 3).
+func originsThroughCallers(p *core.Prog, v ssa.Value, depth int) []ssa.Value {
+	var out []ssa.Value
+	for _, o := range core.XOrigins(v) {
+		if r := core.ResolveFree(o); r != o && depth < 3 {
+			out = append(out, originsThroughCallers(p, r, depth+1)...)
+			continue
+		}
+		par, isPar := o.(*ssa.Parameter)
+		if !isPar || depth >= 3 {
+			out = append(out, o)
+			continue
+		}
+		f := par.Parent()
+		idx := -1
+		for i, pp := range f.Params {
+			if pp == par {
+				idx = i
+			}
+		}
+		n := 0
+		for _, caller := range p.LibFuncs("") {
+			core.Instrs(caller, func(in ssa.Instruction) {
+				cc := core.CallOf(in)
+				if cc == nil || core.InfoOf(cc).Static != f || idx < 0 || idx >= len(cc.Args) {
+					return
+				}
+				n++
+				out = append(out, originsThroughCallers(p, cc.Args[idx], depth+1)...)
+			})
+		}
+		if n == 0 {
+			out = append(out, o)
+		}
+	}
+	return out
 }
